@@ -357,7 +357,7 @@ func runC13Case(base, keys string, cs c13Case, nctr int) (res c13Result) {
 
 func c13Replay(nctr int) {
 	setupGlobals()
-	base := filepath.Join(outDir(), "c13")
+	base := filepath.Join(outDir(), fmt.Sprintf("c13-%d", os.Getpid()))
 	vio.Must(os.MkdirAll(base, 0755))
 	keys := filepath.Join(base, "keys")
 	ledgerkit.LoadOrCreateAccounts(keys, 1)
